@@ -1,0 +1,38 @@
+//go:build verif
+// +build verif
+
+package astisub
+
+import (
+	"io"
+	"time"
+)
+
+// Verification hooks (build tag "verif"): thin exported forwarders over unexported
+// functions so that an external harness can compare them with a formal model.
+// Nothing here is compiled without the tag and nothing changes behaviour.
+
+func VerifParseDuration(i, sep string, digits int) (time.Duration, error) {
+	return parseDuration(i, sep, digits)
+}
+func VerifFormatDuration(i time.Duration, sep string, digits int) string {
+	return formatDuration(i, sep, digits)
+}
+func VerifParseDurationSRT(i string) (time.Duration, error)    { return parseDurationSRT(i) }
+func VerifFormatDurationSRT(i time.Duration) string            { return formatDurationSRT(i) }
+func VerifParseDurationSSA(i string) (time.Duration, error)    { return parseDurationSSA(i) }
+func VerifFormatDurationSSA(i time.Duration) string            { return formatDurationSSA(i) }
+func VerifParseDurationWebVTT(i string) (time.Duration, error) { return parseDurationWebVTT(i) }
+func VerifFormatDurationWebVTT(i time.Duration) string         { return formatDurationWebVTT(i) }
+
+// VerifScanLines returns the tokens the package's line scanner yields on a reader, and its error
+func VerifScanLines(r io.Reader) (lines [][]byte, err error) {
+	s := newScanner(r)
+	for s.Scan() {
+		lines = append(lines, append([]byte(nil), s.Bytes()...))
+	}
+	return lines, s.Err()
+}
+
+func VerifEscapeHTML(i string) string   { return escapeHTML(i) }
+func VerifUnescapeHTML(i string) string { return unescapeHTML(i) }
